@@ -82,9 +82,9 @@ def run(chk):
         par = oqupy.TempoParameters(dt=0.1, epsrel=eps, dkmax=dkmax)
         method = rng.choice(["tempo", "pttempo", "meanfield"])
         unique = rng.random() < 0.5
-        storage = rng.choice(["memory", "file-backed", "exported+imported"]) if method == "pttempo" else "memory"
-        if it < 2:
-            method, storage = "pttempo", ["file-backed", "exported+imported"][it]      # every run: both file routes of PT-TEMPO
+        storage = rng.choice(["memory", "file-backed", "exported+imported", "exported+imported-simple"]) if method == "pttempo" else "memory"
+        if it < 3:
+            method, storage = "pttempo", ["file-backed", "exported+imported", "exported+imported-simple"][it]      # every run: all file routes of PT-TEMPO
         info = {"kind": "covariance", "method": method, "d": d, "eigenvalues": ev, "dkmax": dkmax, "unique": unique, "process_tensor": storage}
 
         def solve(Hh, Oo, rr):
@@ -94,16 +94,17 @@ def run(chk):
             if method == "pttempo":
                 pt = quiet(oqupy.pt_tempo_compute, bath, 0.0, 0.4, parameters=par, unique=unique,
                            process_tensor_file=True if storage == "file-backed" else None, progress_type="silent")
-                if storage == "exported+imported":
+                if storage.startswith("exported+imported"):
                     import tempfile, os, shutil
                     dd_ = tempfile.mkdtemp(prefix="c05_")
                     pt.export(os.path.join(dd_, "pt.hdf5"))
-                    pt = oqupy.import_process_tensor(os.path.join(dd_, "pt.hdf5"), "file")
+                    pt = oqupy.import_process_tensor(os.path.join(dd_, "pt.hdf5"), "simple" if storage.endswith("simple") else "file")
                 out = np.array(quiet(oqupy.compute_dynamics, oqupy.System(Hh), initial_state=rr, process_tensor=pt, progress_type="silent").states)
                 if storage == "file-backed":
                     pt.remove()
-                elif storage == "exported+imported":
-                    pt.close()
+                elif storage.startswith("exported+imported"):
+                    if not storage.endswith("simple"):
+                        pt.close()
                     shutil.rmtree(dd_, ignore_errors=True)
                 return out
             X = Hh
